@@ -270,15 +270,17 @@ func onRuleUpdate(rawResRulesMap map[string][]*Rule) (err error) {
 	updateMux.RUnlock()
 
 	newBreakers := make(map[string][]CircuitBreaker, len(validResRulesMap))
+	newBreakerRules := make(map[string][]*Rule, len(validResRulesMap))
 	for res, resRules := range validResRulesMap {
-		newCbsOfRes := BuildResourceCircuitBreaker(res, resRules, breakersClone[res])
+		newCbsOfRes, rulesInForce := buildResourceCircuitBreaker(res, resRules, breakersClone[res])
 		if len(newCbsOfRes) > 0 {
 			newBreakers[res] = newCbsOfRes
+			newBreakerRules[res] = rulesInForce
 		}
 	}
 
 	updateMux.Lock()
-	breakerRules = validResRulesMap
+	breakerRules = newBreakerRules
 	breakers = newBreakers
 	updateMux.Unlock()
 	currentRules = rawResRulesMap
@@ -314,14 +316,14 @@ func onResourceRuleUpdate(res string, rawResRules []*Rule) (err error) {
 	oldResCbs = append(oldResCbs, breakers[res]...)
 	updateMux.RUnlock()
 
-	newCbsOfRes := BuildResourceCircuitBreaker(res, validResRules, oldResCbs)
+	newCbsOfRes, rulesInForce := buildResourceCircuitBreaker(res, validResRules, oldResCbs)
 
 	updateMux.Lock()
 	if len(newCbsOfRes) == 0 {
 		delete(breakerRules, res)
 		delete(breakers, res)
 	} else {
-		breakerRules[res] = validResRules
+		breakerRules[res] = rulesInForce
 		breakers[res] = newCbsOfRes
 	}
 	updateMux.Unlock()
@@ -410,7 +412,16 @@ func ClearRulesOfResource(res string) error {
 
 // BuildResourceCircuitBreaker builds CircuitBreaker slice from rules. the resource of rules must be equals to res
 func BuildResourceCircuitBreaker(res string, rulesOfRes []*Rule, oldResCbs []CircuitBreaker) []CircuitBreaker {
+	newCbsOfRes, _ := buildResourceCircuitBreaker(res, rulesOfRes, oldResCbs)
+	return newCbsOfRes
+}
+
+// buildResourceCircuitBreaker also returns the rules in force: the rules of rulesOfRes a circuit breaker serves,
+// in the order of the breakers. A rule that is skipped (unmatched resource, unsupported strategy, bad generated
+// circuit breaker) is not among them, so the getters never report a rule that is not enforced.
+func buildResourceCircuitBreaker(res string, rulesOfRes []*Rule, oldResCbs []CircuitBreaker) ([]CircuitBreaker, []*Rule) {
 	newCbsOfRes := make([]CircuitBreaker, 0, len(rulesOfRes))
+	rulesInForce := make([]*Rule, 0, len(rulesOfRes))
 	// First match every rule with an equivalent old cb, so that an unchanged rule keeps its cb
 	// (and its state) even if another rule of the same load could reuse that cb's statistic.
 	equalOldCbs := make([]CircuitBreaker, len(rulesOfRes))
@@ -433,6 +444,7 @@ func BuildResourceCircuitBreaker(res string, rulesOfRes []*Rule, oldResCbs []Cir
 		if equalOldCbs[i] != nil {
 			// reuse the old cb
 			newCbsOfRes = append(newCbsOfRes, equalOldCbs[i])
+			rulesInForce = append(rulesInForce, r)
 			continue
 		}
 		_, reuseStatIdx := calculateReuseIndexFor(r, oldResCbs)
@@ -459,8 +471,9 @@ func BuildResourceCircuitBreaker(res string, rulesOfRes []*Rule, oldResCbs []Cir
 			oldResCbs = append(oldResCbs[:reuseStatIdx], oldResCbs[reuseStatIdx+1:]...)
 		}
 		newCbsOfRes = append(newCbsOfRes, cb)
+		rulesInForce = append(rulesInForce, r)
 	}
-	return newCbsOfRes
+	return newCbsOfRes, rulesInForce
 }
 
 func IsValidRule(r *Rule) error {
